@@ -147,6 +147,13 @@ class Check:
             else:
                 self.discharged += 1
         self.coverage.setdefault("theorems", {}).update({t: ax for t, ax in res.items()})
+        if self.tier == "thorough" and good:
+            # independent re-check of the compiled proof module by Lean's external checker
+            rc, out = run(["lake", "env", "leanchecker", module], cwd=LEAN, timeout=3000)
+            self.coverage["leanchecker"] = {"module": module, "exit": rc}
+            if rc != 0:
+                good = False
+                self.broken_obligation(f"leanchecker rejects {module}", out[-2000:])
         return good
 
     def broken_obligation(self, what, detail):
